@@ -1,7 +1,7 @@
 """C13 registry entry."""
 PID = 'C13'
 SPEC = dict(
-    drivers=[dict(driver='c13_async', extra=['ref/ref.c', 'ref/ref_sig.c', 'ref/ref_pdu.c', 'simnet.c'], omit_objs=['net_tcp_async.o'], deadline=dict(quick=900, thorough=2700), case_limit=dict(quick=600, thorough=1800)),
+    drivers=[dict(driver='c13_async', extra=['ref/ref.c', 'ref/ref_sig.c', 'ref/ref_pdu.c', 'simnet.c'], omit_objs=['net_tcp_async.o'], deadline=dict(quick=900, thorough=5400), case_limit=dict(quick=600, thorough=1800)),
              dict(driver='c13_async_http', extra=['ref/ref.c', 'ref/ref_sig.c', 'ref/ref_pdu.c', 'simnet.c'], omit_objs=['net_http_curl_async.o'], deadline=dict(quick=600, thorough=2400), case_limit=dict(quick=600, thorough=1800))],
     rule='Explicit-state search over event histories of the asynchronous signing service on the simulated TCP transport. Events: add request, run, server reply to the '
          'oldest / newest outstanding request, duplicate reply, unknown id, stale id generation of the same cache slot, bad MAC, error status, error PDU, pushed configuration, '
